@@ -140,10 +140,17 @@ def densified_envelope(bbox, src, dst, n=16):
 # colour = function of ground position only, in a canonical frame:
 #   R = tri(X / s), G = tri(Y / s), B = tri((X + 0.37 Y) / (2.9 s)),   s = s0 * 2**k
 # tri = triangle wave 0..255..0 with slope +-1 (period 510 levels): continuous, so resampling filters are harmless.
+# (callers choose s0 = native resolution / GAIN to get GAIN levels per native pixel: integer truncation in resampling
+# filters - Pillow truncates in bilinear/bicubic transforms, up to one level per stage - then costs 1/GAIN px each)
 
 PERIOD = 510.0
 B_SKEW = 0.37
 B_SLOW = 2.9
+
+
+def ramp_coeffs(s):
+    """per channel (ax, ay): phase u = ax * X + ay * Y"""
+    return ((1.0 / s, 0.0), (0.0, 1.0 / s), (1.0 / (B_SLOW * s), B_SKEW / (B_SLOW * s)))
 
 
 def tri(u):
